@@ -92,6 +92,7 @@ class Recorder:
         self.harness_errors: list[str] = []
         self.t0 = time.time()
         self.limit = sub.time_limit[tier]
+        self.stopped = False  # search ended early because the time budget ran out
         self.focus: str | None = None  # phase 2: the key being shrunk
         self.shrink_deadline = None
 
@@ -108,6 +109,11 @@ class Recorder:
         if self.focus is None:
             if self.timed_out():
                 self.skipped += 1
+                if not count:
+                    # inside a history: stop the whole search (idling would make the data
+                    # generation of the state machine depend on the wall clock)
+                    self.stopped = True
+                    raise _StopSearch()
                 return False
         elif time.time() > self.shrink_deadline:
             raise _StopSearch()
@@ -345,7 +351,13 @@ def main(argv):
             for entry in entries:
                 rec.run_case(entry["case"], fn)
         else:
-            run_search(sub, rec, seed, n, shrink=False)
+            try:
+                run_search(sub, rec, seed, n, shrink=False)
+            except BaseException:  # noqa: BLE001
+                # time budget of a stateful search exhausted (Hypothesis may wrap the stop
+                # signal in its own error): fewer evaluations, not an error
+                if not rec.stopped:
+                    raise
             # phase 2: shrink up to three buckets
             budget = 60 if tier == "quick" else 300
             for key in list(rec.violations)[:3]:
